@@ -217,6 +217,27 @@ CLAIMED["C15"] = dict(
         "each matched by schema feature and validator message. $ref / $defs not covered.",
    technique="Coq proofs over the bound-normalisation and attribute-naming models + helper correspondence + jsonschema reference "
              "validator on values returned by the built types", design="§8 C15")
+CLAIMED["C17"] = dict(
+   text="Machine-checked proof (Coq), partial: forward references as a state machine over a heap of ForwardRef cells shared between "
+        "declarations (Model/Forward.v: the table of pending references with its keys, registration at declaration time, lazy resolution "
+        "at first parse with the reset of function-local references). For every declaration (any fields, any nesting of generic / "
+        "Optional / Union applications, direct classes and string references mixed, one text used any number of times, cells shared with "
+        "other declarations), whatever is bound at declaration time and whatever happened to the heap in between: no reference is lost at "
+        "registration (C17_registration_complete, C17_key_never_shadows_another_reference); the first parse made once every name is bound "
+        "leaves each field denoting exactly the directly written type (C17_declared_then_parsed, C17_first_parse_resolves); a first use "
+        "made too early raises and the next one still gives the direct types (C17_early_use_then_parsed); two function-local "
+        "declarations sharing ForwardRef objects are each resolved under their own globals (C17_local_scopes_isolated).",
+   note="Trusted: Coq kernel; Model/Forward.v as a description of register_forward_ref / resolve_forward_type / "
+        "LogicalType.resolve_forward_refs / Rule.resolve_forward_refs / BaseParser.resolve_forward_refs / ParserField.generate and of "
+        "typing.ForwardRef._evaluate (tied by the forward-state suite: live parsers after every declaration and every "
+        "resolve_forward_refs, field types, pending tables and evaluated flags of the ForwardRef objects through id()). Partial: that "
+        "parsing depends on a field type only through what it denotes, and the behaviour on inputs, are decided on the implementation: "
+        "every spelled system against the same system unrolled with direct references only. Five defects repaired in /repo "
+        "(duplicate key, Optional / Union in local classes, local function return types, generator yield types). Not covered: "
+        "references to other classes of the same function-local scope that are never bound at module level (Python itself cannot "
+        "resolve them), Options(addition='Name'), forward references in property setters.",
+   technique="Coq proofs over a heap / pending-table model of forward-reference registration and resolution + live-state correspondence "
+             "through id() + spelled-vs-unrolled-direct differential oracle on the implementation", design="§8 C17")
 CLAIMED["C19"] = dict(
    text="Machine-checked proof (Coq), partial: object identity is modelled as a heap of cells (Model/Heap.v) and "
         "utils.functional.copy_value, the copy get_default applies to every default, as a heap-threading function. For every object graph "
